@@ -92,4 +92,16 @@ Section Inst.
   Definition hilbert_real_part_C :=
     hilbert_real_part C (RtoC 0) (RtoC 1) Cplus Cmult Cminus Copp C_ring_theory C_int n npos W W_add W_0 W_n W_prim (RtoC (/ INR n)) ninv_C
       Cconj conj_addC conj_mulC conj_0C conj_WC conj_ninvC.
+  Definition dft_idft_C :=
+    dft_idft C (RtoC 0) (RtoC 1) Cplus Cmult Cminus Copp C_ring_theory C_int n npos W W_add W_0 W_n W_prim (RtoC (/ INR n)) ninv_C.
+  Definition filt_compose_C :=
+    filt_compose C (RtoC 0) (RtoC 1) Cplus Cmult Cminus Copp C_ring_theory C_int n npos W W_add W_0 W_n W_prim (RtoC (/ INR n)) ninv_C.
+  Definition filt_inverse_C :=
+    filt_inverse C (RtoC 0) (RtoC 1) Cplus Cmult Cminus Copp C_ring_theory C_int n npos W W_add W_0 W_n W_prim (RtoC (/ INR n)) ninv_C.
+  Definition dft_filt_C :=
+    dft_filt C (RtoC 0) (RtoC 1) Cplus Cmult Cminus Copp C_ring_theory C_int n npos W W_add W_0 W_n W_prim (RtoC (/ INR n)) ninv_C.
+  Definition filt_tone_C :=
+    filt_tone C (RtoC 0) (RtoC 1) Cplus Cmult Cminus Copp C_ring_theory C_int n npos W W_add W_0 W_n W_prim (RtoC (/ INR n)) ninv_C.
+  Definition filt_linear_C :=
+    filt_linear C (RtoC 0) (RtoC 1) Cplus Cmult Cminus Copp C_ring_theory n npos W (RtoC (/ INR n)).
 End Inst.
